@@ -1,11 +1,18 @@
 """C19 sync picks the best peer, serves correct chain segments, converges safely (and the sync part of C04).
-Sync.tla: BestPeers as a set of acceptable answers (TLC prints the table over all tip multisets of <= 4 peers), HighestCommon /
-BlocksFrom (handler answers), Outcomes (where a node may end after being offered a peer's tip, from LIP-0014 priority, common
-block vs finalized height, fast/block sync conditions and peer behaviour).  The harness evaluates the real peer selection on
-every table row, calls the real RPC handlers of a 113-block real node over loopback libp2p, and runs offer scenarios
-(real node A with its own fork; honest real node B, corrupting or truncating fake peer) through the real process()/sync path;
-SyncTrace.tla validates every handler answer and every scenario outcome and checks that the finalized height never
-decreases and no finalized block is replaced."""
+Sync.tla: BestPeers as a set of acceptable answers (TLC prints the table: all tip sequences of <= 4 peers over ranks 0..1, of
+<= 3 peers over ranks 0..2, 6000 sampled sequences of 5-6 peers; ranks are embedded monotonically into uint32 by the harness),
+HighestCommon / BlocksFromOk (handler answers: consecutive followers, in order, never more than the cap), Outcomes (where a
+node may end after being offered a peer's tip, from LIP-0014 priority, common block vs finalized height, fast/block sync
+conditions and peer behaviour: honest, corrupt - also in the middle of the segment -, truncating, out of order),
+FinalizeChainOk (C04: one finalize event per raise).  The harness evaluates the real peer selection on every table row, calls
+the real RPC handlers of 113-block real nodes (one with a block cache of 8) over loopback libp2p incl. boundary ids, 210-id
+requests, unknown and malformed requests, and runs offer scenarios (real node A with its own fork carrying transactions;
+honest real node B up to 220 blocks ahead, fake peers) through the real process()/sync path; after every offer A forges its
+next block and a twin node that always had exactly A's chain has to accept it (after a restoration: same database).  Several
+honest peers: the in-situ selection (mhp against height, a peer that does not answer, most common id).  SyncTrace.tla validates
+every handler answer and every scenario outcome and checks that the finalized height never decreases, no finalized block is
+replaced, finalize events match the raises and the finalized height is not below the precommitted height of the tip.
+VERIF_EXPERIMENTAL=1 adds peers that serve part of a segment and then nothing (open finding: the download loop never ends)."""
 import json, os, re
 import common
 from common import Inconclusive, finish, log
@@ -14,14 +21,13 @@ LEVEL = "model_checking"
 
 def run_sync(ctx, keys_for_pid):
     binp = ctx.go_build("./cmd/c19")
-    r = ctx.tlc("Sync", "Sync_peers", workers=4, timeout=600)
+    r = ctx.tlc("Sync", "Sync_peers", workers=4, timeout=900, seed=ctx.seed)
     if r["violation"]:
         raise Inconclusive("Sync.tla property fails at spec level")
     table = ctx.path("peers.txt")
     with open(table, "w") as fh:
-        for line in r["out"].splitlines():
-            if line.startswith('<<"TB"'):
-                fh.write(line + "\n")
+        for row in ctx.dumps(r["out"], "TB"):
+            fh.write(json.dumps(row) + "\n")
     tf = ctx.path("sync_trace.ndjson"); of = ctx.path("c19.json")
     nh, no = ("150", "160") if ctx.tier == "quick" else ("1500", "1000")   # every networked node costs 2 descriptors until the process exits (limit 20000)
     p = ctx.run([binp, table, tf, of, nh, no], timeout=3000)
@@ -35,7 +41,14 @@ def run_sync(ctx, keys_for_pid):
     t = ctx.tlc("SyncTrace", "SyncTrace", workers=1, timeout=1200, files={"trace.ndjson": tf})
     if t["distinct"] - 1 != len(lines):
         raise Inconclusive("SyncTrace consumed %d of %d records" % (t["distinct"] - 1, len(lines)))
-    for ln, tag, detail in re.findall(r'<<"MISMATCH", (\d+), "([a-z-]+)", (.*)>>', t["out"]):
+    # tag of a MISMATCH line -> violation key (":sync" keys belong to C04, see c04.C04_SYNC)
+    SCEN = {"temp-blocks-left": ("sync:temp-blocks-left", "the node ended on a chain (outcome '%(outcome)s') but temporary blocks of the attempt are left behind: %(temp)s"),
+            "cannot-extend": ("sync:cannot-extend-after-sync", "after the synchronisation attempt (outcome '%(outcome)s') the node does not accept the next block forged on its own tip"),
+            "twin-rejects": ("sync:twin-rejects-next-block", "after the synchronisation attempt (outcome '%(outcome)s') the node forged a block on its tip that a node which always had exactly that chain rejects"),
+            "restore-differs": ("sync:restore-differs-from-twin", "the original blocks were restored (outcome '%(outcome)s') but the database differs from the one of a twin node that was never offered anything"),
+            "finalize-events": ("finalize-events:sync", "the finalize events published during the synchronisation %(finEvents)s are not one event per raise of the finalized height from %(finBefore)s to %(finAfter)s"),
+            "finalized-behind-precommit": ("finalized-behind-precommit:sync", "after the synchronisation the stored finalized height %(finAfter)s is below the precommitted height %(mhpcAfter)s of the tip")}
+    for ln, tag, detail in re.findall(r'<<"MISMATCH", (\d+), "([a-z0-9-]+)", (.*)>>', t["out"]):
         e = json.loads(lines[int(ln) - 1])
         if tag == "sync-outcome":
             key = "sync-outcome:%s:%s" % (e["scenario"]["behaviour"], e["outcome"])
@@ -43,11 +56,17 @@ def run_sync(ctx, keys_for_pid):
                 e["scenario"]["behaviour"], e["outcome"], json.dumps(e["f"]), e.get("err"))
         elif tag == "sync-outcome-two-peers":
             key = "sync-outcome:two-peers:" + e["outcome"]
-            what = "two honest peers: the block of peer T (height %s) started a block synchronisation, the best peer B has height %s; the node ended on '%s' (height %s, error %s) instead of B's chain" % (
-                e["trigger"]["h"], e["best"]["h"], e["outcome"], e["tip"]["h"], e.get("err"))
+            what = "several honest peers (%s), tips %s: the block of peer T (height %s) started a block synchronisation; by (maxHeightPrevoted, height, most common id) the node has to sync from a peer with tip id %s (best chain: height %s); it ended on '%s' (tip label %s, height %s, error %s)" % (
+                e["scenario"].get("variant"), json.dumps(e["peers"]), e["trigger"]["h"], detail.strip('"'), e["best"]["h"], e["outcome"], e["tip"], e["tipH"]["h"], e.get("err"))
+        elif tag == "honest-peer-banned":
+            key = "sync:honest-peer-banned"
+            what = "several honest peers (%s) that all serve valid chains: %s peer(s) banned after the block synchronisation (outcome '%s')" % (e["scenario"].get("variant"), e["banned"], e["outcome"])
         elif tag in ("finalized-height-decreased", "finalized-block-replaced"):
             key = tag + ":sync"
             what = "%s during sync: %s" % (tag, json.dumps(e)[:400])
+        elif tag in SCEN:
+            key = SCEN[tag][0]
+            what = SCEN[tag][1] % e + " (scenario %s, features %s, error %s)" % (json.dumps({k: v for k, v in e["scenario"].items() if k != "features"}), json.dumps(e["f"]), e.get("err"))
         else:
             key = "handler:" + tag
             what = "RPC handler answer differs from the specification: got %s expected %s (request %s)" % (e.get("res"), detail[:200], json.dumps({k: e[k] for k in e if k not in ("chain", "res")})[:200])
@@ -55,17 +74,35 @@ def run_sync(ctx, keys_for_pid):
     for key, what, rep in viols:
         if keys_for_pid(key):
             ctx.violation(key, what, rep)
+    cv = res.get("cov") or {}
     log("[c19] peer rows=%d handler calls=%d offers=%d outcomes=%s kinds=%s violations=%s" % (res["peer_rows"], res["handler_calls"], res["offers"],
         res["outcomes"], res["offer_kinds"], sorted(set(k for k, _, _ in viols))))
-    if not ctx.violations and (res["peer_rows"] < 1000 or res["handler_calls"] < 50 or res["outcomes"].get("peer", 0) < 5 or res["outcomes"].get("own+ban", 0) < 2):
-        raise Inconclusive("scenarios did not cover switch and restore outcomes: vacuous")
+    log("[c19] coverage %s" % json.dumps(cv, sort_keys=True))
+    if not ctx.violations:
+        if res["peer_rows"] < 1000 or res["handler_calls"] < 50 or res["outcomes"].get("peer", 0) < 5 or res["outcomes"].get("own+ban", 0) < 2:
+            raise Inconclusive("scenarios did not cover switch and restore outcomes: vacuous")
+        # every added sub-check has to have happened (a run in which it did not is not a pass)
+        need = {"peers:rows-5-6-peers": 1000, "peers:rows-three-ranks": 1000, "peers:rows-frequency-over-all-peers-wrong": 1, "peers:rows-composite-key-wrong": 1,
+                "handler:servers-with-small-cache": 1, "handler:blocks:at-cap": 3, "handler:blocks:below-cap": 3, "handler:blocks:unknown-or-malformed-id": 3,
+                "handler:last": 1, "handler:malformed-requests": 8, "handler:common:ids-max": 200,
+                "offers:small-cache:peer": 2, "offers:second-download-batch": 1, "offers:restored-blocks-with-transactions": 1,
+                "ext:extended": 50, "ext:twin": 30, "ext:dump-after-restore": 2, "finalize-events:offers-with-raise": 3,
+                "several-peers:mhp-and-height-disagree": 1, "several-peers:decided-by-most-common-id": 1, "several-peers:silent": 1, "several-peers:better": 1}
+        missing = {k: cv.get(k, 0) for k, n in need.items() if cv.get(k, 0) < n}
+        kinds = res["offer_kinds"]
+        for b in ("static", "tamper", "gap", "reorder", "truncate"):
+            if not any(k.endswith(":" + b) for k in kinds):
+                missing["offers:" + b] = 0
+        if missing:
+            raise Inconclusive("sub-checks without cases in this run (vacuous): %s" % missing)
     cov = dict(traces_validated_against_impl=len(lines) + res["peer_rows"], samples=[json.loads(l) for l in lines[-2:]],
                peer_selection_rows=res["peer_rows"], handler_calls=res["handler_calls"], offer_scenarios=res["offers"],
-               outcomes=res["outcomes"], offer_kinds=res["offer_kinds"], exhaustive=False,
-               rule="peer selection: all sequences of <= 4 tips over mhp, height in 0..1 and 3 ids (exhaustive); handlers and offers: seeded scenarios")
+               outcomes=res["outcomes"], offer_kinds=res["offer_kinds"], sub_checks=cv, exhaustive=False,
+               rule="peer selection: all sequences of <= 4 tips over ranks 0..1 and of <= 3 tips over ranks 0..2 of (mhp, height) and 3 ids (exhaustive), "
+                    "6000 sampled sequences of 5-6 tips, every row under 4 monotone embeddings into uint32; handlers and offers: fixed + seeded scenarios")
     return cov
 
-C19_KEYS = ("best-peer", "handler:", "sync-outcome", "hang:sync", "panic:sync", "sync:", "observe-after-sync")
+C19_KEYS = ("best-peer", "handler:", "sync-outcome", "hang:sync", "panic:sync", "sync:", "observe-after-sync")   # "sync:" = tip-height-changed-on-own-chain, temp-blocks-left, cannot-extend-after-sync, twin-rejects-next-block, restore-differs-from-twin, honest-peer-banned
 
 NET_KEYS = ("net:tip-mismatch", "net:ban-mismatch", "net:hang", "net:panic", "net:temp-blocks-left", "net:observe", "net:forged-block-rejected")
 
@@ -77,4 +114,4 @@ def run(ctx):
     from props import net
     cov.update(net.run_net(ctx, lambda k: k.startswith(NET_KEYS), parts=("honest_exh", "honest_sim", "chg_sim")))
     finish(ctx, LEVEL, cov, assumptions=["3 validators sign on both forks (the scenarios exercise the sync machinery, not BFT safety)",
-                                         "toy application; loopback libp2p; fake peers serve re-signed blocks with a wrong state root or empty segments"])
+                                         "toy application; loopback libp2p (a ban closes the shared loopback address: which of several peers is banned is not observable); fake peers serve re-signed blocks with a wrong state root / height, tampered payloads, statically invalid transactions, segments with a missing block, reversed or empty segments"])
